@@ -41,6 +41,10 @@ def main():
             pid = meta.get("property") or next(iter(evals.values())).get("property")
             rel = os.path.relpath(d, root).replace("/SEED/", "-").replace("/", "-")
             name = rel if rel.startswith(("C", "M")) else "%s-%s" % (pid, rel)
+            rounds = {"seed": "r1", "seed2": "r2", "seed3": "r3", "seed4": "r4", "seed5": "r5"}
+            base = os.path.basename(root.rstrip("/"))
+            if base in rounds:
+                name = rounds[base] + "-" + name
             any_eval = next(iter(evals.values()))
             has_demo = os.path.exists(os.path.join(d, "seeded_demo_test.go"))
             ok = any_eval.get("applies") and any_eval.get("builds") and any_eval.get("suite_passes")
@@ -84,7 +88,7 @@ def main():
              "", "| seeded change | breaks | what it is | base: own check | final: caught by |", "|---|---|---|---|---|"]
     for m in sorted(rows, key=lambda x: x["id"]):
         base = m["runs"].get("eval-base.json")
-        final = m["runs"].get("eval-final.json") or m["runs"].get("eval.json") or m["runs"].get("eval-new.json")
+        final = m["runs"].get("eval-final2.json") or m["runs"].get("eval-final.json") or m["runs"].get("eval.json") or m["runs"].get("eval-new.json")
         own = m["breaks_property"] + "/quick"
         b = "-" if not base else ("caught" if own in (base.get("caught_by") or []) else "missed")
         f = "-" if not final else (", ".join(c.replace("/quick", "").replace("/thorough", " (thorough)") for c in (final.get("caught_by") or [])) or "**none**")
